@@ -234,8 +234,10 @@ func (lq *LQ) SolveTo(dst *Dense, trans bool, b Matrix) error {
 		}
 		dst.reuseAsNonZeroed(c, bc)
 	}
-	// Do not need to worry about overlap between x and b because w has its own
-	// independent storage.
+	// The solution is computed in independent storage, but it is
+	// copied into dst at the end, so dst must not overlap b.
+	bU, _ := untranspose(b)
+	dst.checkOverlapMatrix(bU)
 	w := getDenseWorkspace(max(r, c), bc, false)
 	w.Copy(b)
 	t := lq.lq.asTriDense(lq.lq.mat.Rows, blas.NonUnit, blas.Lower).mat
@@ -306,5 +308,11 @@ func (lq *LQ) SolveVecTo(dst *VecDense, trans bool, b Vector) error {
 	} else {
 		dst.reuseAsNonZeroed(c)
 	}
-	return lq.SolveTo(dst.asDense(), trans, bm)
+	m := dst.asDense()
+	if dst == b {
+		// Prevent the overlap detection code from identifying
+		// m and bm as overlapping but not identical.
+		bm = m
+	}
+	return lq.SolveTo(m, trans, bm)
 }
